@@ -42,6 +42,7 @@ Definition check_case (c : case) : list string :=
   | CaseOp o =>
       (if write_fields_ok o then [] else ["corr:write_fields"]) ++
       (if o_fresh o then [] else ["corr:fresh_slices"]) ++
+      (if o_cache_fresh o then [] else ["corr:precompute_allocates"]) ++
       (if nominate_ok o then [] else ["corr:nominate"]) ++
       (if book_ok o then [] else ["corr:bookkeeping"]) ++
       (if holds_b o then [] else ["oracle:no_side_effects"])
